@@ -479,12 +479,13 @@ Qed.
 
 Lemma reading_next_none r :
   reading r -> r_pending r = [] ->
-  exists r', rows_next r = (r', false) /\ r_closed r' = true /\ r_lasterr r' = None /\
+  exists r', rows_next r = (r', false) /\ r_closed r' = true /\ rows_err r' = None /\
              r_close_err r' = None /\ r_driver_closes r' = 1.
 Proof.
   intros [C [L [Fl [Ce [D [Ok [Mo [Xd He]]]]]]]] P. unfold rows_next. rewrite Xd, C, Fl, P, Mo.
-  unfold rows_close, rows_close_with, rows_with. simpl. rewrite L, Ce. simpl.
-  eexists. split; [reflexivity|]. simpl. repeat split; auto; try (rewrite D; reflexivity).
+  unfold rows_close, rows_close_with, rows_with, set_hiteof, rows_with. simpl. rewrite Ce. simpl.
+  eexists. split; [reflexivity|]. unfold rows_err, lasterr_or. simpl.
+  repeat split; auto; try (rewrite D; reflexivity).
 Qed.
 
 Definition live_iter (i : iter) (r : rows) : Prop :=
@@ -497,7 +498,7 @@ Lemma getall_loop_plain : forall n fuel r i c acc any,
   ga_bad_elem c = None -> ga_dests c = GValid ->
   exists i' r', getall_loop fuel i c acc any =
                 (i', None, acc ++ map row_id (r_pending r), any || negb (Nat.eqb n 0)) /\
-                live_iter i' r' /\ r_closed r' = true /\ r_lasterr r' = None /\ r_close_err r' = None.
+                live_iter i' r' /\ r_closed r' = true /\ rows_err r' = None /\ r_close_err r' = None.
 Proof.
   induction n as [|n IH]; intros fuel r i c acc any Len Fu Rd [R E] Be De.
   - destruct fuel as [|f]; [lia|]. cbn [getall_loop].
@@ -546,7 +547,7 @@ Proof.
                  it_result := None; it_dead := None |} c [] false eq_refl Fu Rd Lv Be De)
     as [i' [r' [G [[R' E'] [C' [L' Ce']]]]]].
   rewrite G. unfold iter_close. rewrite R'. unfold rows_close, rows_close_with. rewrite C'.
-  unfold rows_err. rewrite L', E'. cbn [fst snd].
+  rewrite L', E'. cbn [fst snd].
   destruct (r_pending r) as [|x rest]; simpl; auto.
 Qed.
 
@@ -583,13 +584,13 @@ Proof.
   destruct (r_pending r) as [|x rest] eqn:P.
   - destruct (reading_next_none r Rd P) as [r' [N [C [L [Ce D]]]]]. rewrite N. cbn [negb].
     unfold iter_close. cbn [it_rows it_with it_err]. unfold rows_close, rows_close_with. rewrite C.
-    unfold rows_err. rewrite L. simpl. auto.
+    rewrite L. simpl. auto.
   - destruct (reading_next_some r x rest Rd P) as [r' [N [Rd' [P' [Cu Okx]]]]]. rewrite N. cbn [negb].
     unfold iter_get. cbn [it_err it_with it_started it_rows]. unfold rows_scan.
     destruct Rd' as [C' [L' [Fl' [Ce' [D' [Ok' [Mo' [Xd' He']]]]]]]]. rewrite L', C', Cu, Okx. cbn [negb].
     cbv beta iota. unfold iter_close. cbn [it_rows it_with it_err].
     unfold rows_close, rows_close_with. rewrite C'.
-    unfold rows_with, rows_err. cbn [r_lasterr]. rewrite L', Ce'. simpl. destruct (r_hit_eof r'); auto.
+    unfold rows_with, rows_err, lasterr_or. cbn [r_lasterr r_hiteof r_ctxdone]. rewrite L', Ce', Xd', He'. simpl. auto.
 Qed.
 
 (* C15: a statement without outputs: Get returns nil and fills the Outcome with
